@@ -6,11 +6,12 @@
  * block, bytes).  For a call write(hash, data, len) with bytes = B0 and B1 = B0 + len (no wrap):
  *   (a) bytes' = B1;
  *   (b) exactly the stream blocks number B0/64 .. B1/64 - 1 are handed to the compression function, each
- *       exactly once, in stream order, always on state pointer hash->s; stream block number k, offset o,
+ *       exactly once, in stream order (grouped into calls in any way, no call empty); stream block number k, offset o,
  *       holds the stream byte at position p = 64 k + o, where stream(p) = old buf[p%64] for p < B0 and
  *       data[p - B0] for p >= B0  (the oracle's block counter starts at B0/64: absolute block numbers);
  *   (c) afterwards buf[o] = stream(64 (B1/64) + o) for every o < B1%64;
- *   (d) hash->s is changed by compression calls only; len = 0 changes nothing;
+ *   (d) the state is chained by value: the old hash->s enters the first call, every call reads what the
+ *       previous one produced, hash->s ends as the last output; len = 0 changes nothing;
  *   (e) no byte outside data[0..len) is read (data is an exact-size object; the oracle and the memcpy
  *       model check that the ranges they are handed are readable).
  * By induction over the writes: the sequence of blocks handed to the compression function, and the
@@ -44,16 +45,15 @@ void h_write(void) {
     memcpy(h.buf, buf0, 64); h.bytes = b0;
     hc.fn_sha256_compression = verif_compress;
     __CPROVER_assume(wblk <= (UINT64_MAX >> 6));
-    COMPLOG_RESET(); g_c_blocks = b0 / 64; g_cw_blk = wblk; g_cw_off = woff;
-    g_mc_big = NULL; g_mc_base = (unsigned char *)&h; g_mc_doff = offsetof(secp256k1_sha256, buf) + woff; g_mc_calls = 0;
+    COMPLOG_RESET(); g_c_blocks = b0 / 64; g_cw_blk = wblk; g_cw_off = woff; g_sk = sk; g_c_cur = s0a;
+    g_mc_big = NULL; g_mc_base = (unsigned char *)&h; g_mc_doff = offsetof(secp256k1_sha256, buf) + woff;
 
     secp256k1_sha256_write(&hc, &h, data, len);
 
     b1 = b0 + len;
     __CPROVER_assert(h.bytes == b1, "C05 sha256_write (a): bytes' = bytes + len");
     __CPROVER_assert(g_c_blocks == b1 / 64, "C05 sha256_write (b): exactly the blocks bytes/64 .. (bytes+len)/64 - 1 are compressed");
-    __CPROVER_assert(g_c_bad == 0 && g_c_calls <= 2, "C05 sha256_write (b): at most two compression calls, none empty");
-    __CPROVER_assert((g_c_calls < 1 || g_c_state[0] == h.s) && (g_c_calls < 2 || g_c_state[1] == h.s), "C05 sha256_write (b): every compression call works on hash->s");
+    __CPROVER_assert(g_c_bad == 0, "C05 sha256_write (b): no empty compression call");
     if (b0 / 64 <= wblk && wblk < b1 / 64) {
         p = wblk * 64 + woff;
         __CPROVER_assert(g_cw_hit == 1, "C05 sha256_write (b): every complete block of the stream is delivered exactly once");
@@ -67,14 +67,13 @@ void h_write(void) {
         if (q < b0) __CPROVER_assert(h.buf[woff] == buf0[woff], "C05 sha256_write (c): old tail bytes stay in place when no block completes");
         else __CPROVER_assert(h.buf[woff] == data[q - b0], "C05 sha256_write (c): new tail buf[o] is the stream byte at 64(B1/64)+o");
     }
-    __CPROVER_assert(h.s[sk] == (g_c_calls ? g_c_out[sk] : s0a), "C05 sha256_write (d): state words are changed by the compression function only");
-    if (len == 0) __CPROVER_assert(h.buf[woff] == buf0[woff] && g_c_calls == 0 && g_mc_calls == 0, "C05 sha256_write (d): an empty write changes nothing");
+    __CPROVER_assert(g_c_chain_bad == 0 && h.s[sk] == g_c_cur && (g_c_calls > 0 || g_c_cur == s0a), "C05 sha256_write (d): the state is chained through the compression calls and changed by nothing else");
+    if (len == 0) __CPROVER_assert(h.buf[woff] == buf0[woff] && g_c_calls == 0, "C05 sha256_write (d): an empty write changes nothing");
 
-    if (g_c_calls == 2 && wblk == b0 / 64 && woff >= b0 % 64) REACH("write: tail completed and bulk call, watched byte from data in block 0");
-    if (g_c_calls == 2 && wblk == b0 / 64 + 5000 && len > 400000) REACH("write: long input, watched block 5000");
+    if (g_c_calls >= 2 && wblk == b0 / 64 && woff >= b0 % 64) REACH("write: tail completed and bulk call, watched byte from data in block 0");
+    if (g_c_calls >= 2 && wblk == b0 / 64 + 5000 && len > 400000) REACH("write: long input, watched block 5000");
     if (g_c_calls == 0 && len > 0 && woff < b1 % 64 && woff >= b0 % 64) REACH("write: buffered only");
-    if (g_c_calls == 1 && b0 % 64 == 0 && b1 % 64 == 0 && len > 64) REACH("write: aligned bulk");
-    if (g_mc_calls == 2) REACH("write: two copies into the buffer");
+    if (g_c_calls >= 1 && b0 % 64 == 0 && b1 % 64 == 0 && len > 64) REACH("write: aligned bulk");
     REACH("write end");
 }
 
@@ -91,10 +90,10 @@ void h_write_c(void) {
     memcpy(h.s, sc, 32); memcpy(h.buf, bufc, 64); h.bytes = b0;
     hc.fn_sha256_compression = verif_compress;
     COMPLOG_RESET(); g_c_blocks = b0 / 64; g_c_calls = c_calls; g_cw_hit = cw_hit; g_cw_byte = cw_byte;
-    g_cw_blk = wblk; g_cw_off = woff; g_sk = sk; blocks0 = g_c_blocks;
-    g_mc_big = NULL; g_mc_base = (unsigned char *)&h; g_mc_doff = offsetof(secp256k1_sha256, buf) + woff; g_mc_calls = 0;
+    g_cw_blk = wblk; g_cw_off = woff; g_sk = sk; g_c_cur = h.s[sk]; blocks0 = g_c_blocks;
+    g_mc_big = NULL; g_mc_base = (unsigned char *)&h; g_mc_doff = offsetof(secp256k1_sha256, buf) + woff;
     secp256k1_sha256_write(&hc, &h, data, len);
-    if (g_c_calls == c_calls + 2 && wblk == blocks0 + 7 && g_cw_hit == cw_hit + 1) REACH("write contract: two compression calls, watched block 7 of this call");
+    if (g_c_calls > c_calls && b0 % 64 != 0 && wblk == blocks0 + 7 && g_cw_hit == cw_hit + 1) REACH("write contract: tail completed, watched block 7 of this call");
     if (g_c_calls == c_calls && len > 0) REACH("write contract: buffered only");
     REACH("write contract end");
 }
@@ -117,7 +116,7 @@ void h_write2(void) {
     memcpy(h.buf, tl0, 64); h.bytes = b0;
     hc.fn_sha256_compression = verif_compress;
     __CPROVER_assume(wblk <= (UINT64_MAX >> 6));
-    COMPLOG_RESET(); g_c_blocks = b0 / 64; g_cw_blk = wblk; g_cw_off = woff; g_sk = sk; g_mc_calls = 0;
+    COMPLOG_RESET(); g_c_blocks = b0 / 64; g_cw_blk = wblk; g_cw_off = woff; g_sk = sk; g_c_cur = h.s[sk];
 
     secp256k1_sha256_write(&hc, &h, d, la);
     secp256k1_sha256_write(&hc, &h, d + la, lb);
